@@ -1,0 +1,102 @@
+//go:build verif
+
+package generator
+
+// Verification hooks, compiled only with -tags verif.
+//
+//   - verifEvent appends one JSON line per file decision of GenOpts.write to the
+//     file named by $VERIF_TRACE (which files a run decided to skip, render, write).
+//   - verifYield perturbs goroutine interleavings between critical sections when
+//     $VERIF_YIELD=<seed> is set, and logs the site to $VERIF_TRACE.
+//
+// Neither changes what the generator computes.
+
+import (
+	"encoding/json"
+	"hash/fnv"
+	"os"
+	"runtime"
+	"strconv"
+	"sync"
+	"sync/atomic"
+	"time"
+)
+
+var (
+	verifMu      sync.Mutex
+	verifFile    *os.File
+	verifInit    sync.Once
+	verifSeq     uint64
+	verifSeed    uint64
+	verifYieldOn bool
+)
+
+func verifSetup() {
+	if p := os.Getenv("VERIF_TRACE"); p != "" {
+		f, err := os.OpenFile(p, os.O_APPEND|os.O_CREATE|os.O_WRONLY, 0o644)
+		if err == nil {
+			verifFile = f
+		}
+	}
+	if s := os.Getenv("VERIF_YIELD"); s != "" {
+		if n, err := strconv.ParseUint(s, 10, 64); err == nil {
+			verifSeed = n
+			verifYieldOn = true
+		}
+	}
+}
+
+func verifGoroutineID() uint64 {
+	var buf [64]byte
+	n := runtime.Stack(buf[:], false)
+	// "goroutine 123 [running]:"
+	var id uint64
+	for _, c := range buf[len("goroutine "):n] {
+		if c < '0' || c > '9' {
+			break
+		}
+		id = id*10 + uint64(c-'0')
+	}
+	return id
+}
+
+func verifLog(kind, path string, extra int64) {
+	if verifFile == nil {
+		return
+	}
+	seq := atomic.AddUint64(&verifSeq, 1)
+	line, _ := json.Marshal(map[string]interface{}{
+		"pid": os.Getpid(), "seq": seq, "g": verifGoroutineID(), "kind": kind, "path": path, "n": extra,
+	})
+	verifMu.Lock()
+	_, _ = verifFile.Write(append(line, '\n'))
+	verifMu.Unlock()
+}
+
+func verifEvent(kind, path string) {
+	verifInit.Do(verifSetup)
+	verifLog(kind, path, 0)
+}
+
+func verifYield(site string) {
+	verifInit.Do(verifSetup)
+	if !verifYieldOn {
+		return
+	}
+	seq := atomic.AddUint64(&verifSeq, 1)
+	h := fnv.New64a()
+	_, _ = h.Write([]byte(site))
+	var b [16]byte
+	for i := 0; i < 8; i++ {
+		b[i] = byte(verifSeed >> (8 * i))
+		b[8+i] = byte(seq >> (8 * i))
+	}
+	_, _ = h.Write(b[:])
+	d := time.Duration(h.Sum64()%2000) * time.Microsecond
+	verifLog("yield", site, int64(d/time.Microsecond))
+	if d%3 == 0 {
+		runtime.Gosched()
+	} else {
+		time.Sleep(d)
+	}
+}
